@@ -124,7 +124,7 @@ pub fn run_session_clocks(
             if let Some((_, rc)) = clocks {
                 iroh_docs::verif::set_clock(Some(rc));
             }
-            let reply = es(b.sync_process_message(m, init_peer, &mut t.resp_out).await)?;
+            let reply = b.sync_process_message(m, init_peer, &mut t.resp_out).await.map_err(|e| format!("session: the responder could not process message {}: {e:?}", t.msgs.len()))?;
             let Some(reply) = reply else {
                 t.completed = true;
                 break;
@@ -137,7 +137,7 @@ pub fn run_session_clocks(
             if let Some((ic, _)) = clocks {
                 iroh_docs::verif::set_clock(Some(ic));
             }
-            next = es(a.sync_process_message(reply, resp_peer, &mut t.init_out).await)?;
+            next = a.sync_process_message(reply, resp_peer, &mut t.init_out).await.map_err(|e| format!("session: the initiator could not process message {}: {e:?}", t.msgs.len()))?;
         }
         drop(a);
         drop(b);
